@@ -73,18 +73,20 @@ func (t threadSpec) String() string {
 var closeCauses = []error{nil, io.EOF, nbio.ErrReadTimeout, nbio.ErrWriteTimeout, userErrs[0], userErrs[1], userErrs[2], syscall.ECONNRESET}
 
 type simSpec struct {
-	Tier     string       `json:"tier"`
-	Seed     int64        `json:"seed"`
-	Case     int          `json:"case"`
-	Mode     string       `json:"mode"`
-	Kind     string       `json:"kind"`  // conn | dial
-	Setup    string       `json:"setup"` // ok | epollfail | toobig
-	Backlog  bool         `json:"backlog"`
-	Deadline bool         `json:"deadline"`
-	Kernel   string       `json:"kernel,omitempty"` // dial: ok | fail
-	Script   []string     `json:"script"`
-	Threads  []threadSpec `json:"threads"`
-	Sched    int64        `json:"schedule_seed"`
+	Tier      string       `json:"tier"`
+	Seed      int64        `json:"seed"`
+	Case      int          `json:"case"`
+	Mode      string       `json:"mode"`
+	Kind      string       `json:"kind"`  // conn | dial
+	Setup     string       `json:"setup"` // ok | epollfail | toobig
+	Backlog   bool         `json:"backlog"`
+	Deadline  bool         `json:"deadline"`
+	Kernel    string       `json:"kernel,omitempty"` // dial: ok | fail
+	Script    []string     `json:"script"`
+	Threads   []threadSpec `json:"threads"`
+	Sched     int64        `json:"schedule_seed"`
+	Transport string       `json:"transport,omitempty"`
+	PreRead   bool         `json:"pre_read,omitempty"` // a read pass (EAGAIN / failing recvfrom) before the race
 }
 
 type simRun struct {
@@ -217,8 +219,12 @@ func (r *simRun) callOp(c *nbio.Conn, t threadSpec) (res string) {
 			res = "closed"
 		}
 	case "read":
-		_, err := c.Read(make([]byte, 16))
-		res = resClass(err)
+		// a failing read does not close by itself (the poller's closeWithError follows as an action of its own)
+		if _, err := c.Read(make([]byte, 16)); errors.Is(err, net.ErrClosed) {
+			res = "closed"
+		} else {
+			res = "done"
+		}
 	}
 	return res
 }
@@ -401,6 +407,7 @@ func simCase(rep *hx.Report, envs []*simEnv, seed int64, idx int) {
 			spec.Setup = "closeinopen" // the open handler closes (rejects) the connection
 		}
 	}
+	spec.PreRead = rnd.Intn(2) == 0
 	spec.Backlog = rnd.Intn(3) == 0
 	spec.Deadline = rnd.Intn(3) == 0
 	script, stxt := genScript(rnd)
@@ -452,8 +459,14 @@ func simCase(rep *hx.Report, envs []*simEnv, seed int64, idx int) {
 	var err error
 	if spec.Kind == "conn" {
 		typ := nbio.ConnTypeTCP
-		if rnd.Intn(4) == 0 {
+		switch rnd.Intn(6) {
+		case 0:
 			typ = nbio.ConnTypeUnix
+		case 1, 2:
+			// an added net.DialUDP client: its reads go through readUDP (recvfrom on the simulated descriptor fails with
+			// EBADF, which readUDP parks in Conn.closeErr while the connection is open)
+			typ = nbio.ConnTypeUDPClientFromDial
+			spec.Transport = "udp-client"
 		}
 		r.c, err = eng.VerifLifeNewConn(r.sock, typ)
 		switch spec.Setup {
@@ -496,6 +509,9 @@ func simCase(rep *hx.Report, envs []*simEnv, seed int64, idx int) {
 	}
 	if spec.Deadline {
 		r.c.SetDeadline(time.Now().Add(time.Hour))
+	}
+	if spec.PreRead {
+		r.doOp(0, -1, threadSpec{Kind: "read"})
 	}
 	r.sock.SetScript(script)
 	if spec.Kind == "dial" && spec.Setup == "ok" {
@@ -548,8 +564,12 @@ func simCase(rep *hx.Report, envs []*simEnv, seed int64, idx int) {
 		}
 		return "0"
 	}
-	snap := fmt.Sprintf("closed=%s fdcl=%d sys=%d tears=0 taken=0 jobs=0 pend=%s imm=0 notes=%s dials=%s quiescent=1",
-		b(closed), r.sock.Closed, r.sock.Calls, b(nbio.VerifLifePending(r.c)), strings.Join(r.closeErrs, ","), strings.Join(r.dialRes, ","))
+	closeErrID := "-"
+	if cl, ce := r.c.IsClosed(); cl {
+		closeErrID = errID(ce)
+	}
+	snap := fmt.Sprintf("closed=%s closeerr=%s fdcl=%d sys=%d tears=0 taken=0 jobs=0 pend=%s imm=0 notes=%s dials=%s quiescent=1",
+		b(closed), closeErrID, r.sock.Closed, r.sock.Calls, b(nbio.VerifLifePending(r.c)), strings.Join(r.closeErrs, ","), strings.Join(r.dialRes, ","))
 	observed := strings.Join(evs, " ") + " | " + snap
 
 	// coverage
@@ -561,6 +581,9 @@ func simCase(rep *hx.Report, envs []*simEnv, seed int64, idx int) {
 	rep.Ops += len(r.acts)
 	rep.Stat("sim." + spec.Kind + "." + spec.Setup)
 	rep.Stat("sim.mode." + spec.Mode)
+	if spec.Transport != "" {
+		rep.Stat("sim.transport." + spec.Transport)
+	}
 	for _, t := range spec.Threads {
 		rep.Stat("sim.thread." + t.Kind)
 	}
@@ -652,6 +675,9 @@ func simCase(rep *hx.Report, envs []*simEnv, seed int64, idx int) {
 	}
 	if !closed && r.sock.Closed != 0 {
 		r.oracle("fd-closed-open-conn", "descriptor closed while the connection is open", ex)
+	}
+	if r.closes == 1 && closeErrID != r.closeErrs[0] {
+		r.oracle("isclosed-differs-from-notified-"+cause, fmt.Sprintf("notified %s but IsClosed() reports %s", errName(r.closeErrs[0]), errName(closeErrID)), ex)
 	}
 	if c2, _ := r.c.IsClosed(); c2 != closed {
 		r.oracle("isclosed-disagrees", "IsClosed disagrees with the flag", ex)
